@@ -155,6 +155,11 @@ theorem capture_trim (out : Str) : ∃ pre post, out = pre ++ capture out ++ pos
     | nil => rw [hd] at hc; simp at hc
     | cons d r => rw [hd] at hc; simpa using hc
 
+/-- **C11 (capture, several executions).** Whatever earlier attempts of the producing step printed, the value is
+    the trimmed stdout of its last execution. -/
+theorem capture_last_attempt (earlier : List Str) (last : Str) : captureRun (earlier ++ [last]) = capture last := by
+  simp [captureRun]
+
 /-- **C11 (restore on retry).** The value handed back to the environment from the stored `NAME=value`
     is exactly the captured value — whatever it contains ('=' included). -/
 theorem restore_exact (name out : Str) : restore name (stored name out) = capture out :=
@@ -207,6 +212,7 @@ end BdModel.P11
 #print axioms BdModel.P11.start_cli_full_refuted
 #print axioms BdModel.P11.start_cli_partial
 #print axioms BdModel.P11.capture_trim
+#print axioms BdModel.P11.capture_last_attempt
 #print axioms BdModel.P11.restore_exact
 #print axioms BdModel.P11.output_visible
 #print axioms BdModel.P11.output_arrives
